@@ -43,12 +43,15 @@ inline J knobs_op(Rng& r, int min_fd, int max_fd) {
 inline J random_ts(Rng& r) {
     if (r.chance(0.3)) return J();
     J t = J::arr();
-    t.push(r.range(1970, 2105));
+    // the six fields are stored as they are given: any value a struct tm field may take, whether or not the
+    // calendar has that day (30 February) or that second (a leap second)
+    static const int64_t years[] = {1900, 1970, 1999, 2000, 2038, 2100, 9999};
+    t.push(r.chance(0.1) ? years[r.below(7)] : r.range(1970, 2105));
     t.push(r.range(1, 12));
-    t.push(r.range(1, 28));
+    t.push(r.range(1, 31));
     t.push(r.range(0, 23));
     t.push(r.range(0, 59));
-    t.push(r.range(0, 59));
+    t.push(r.chance(0.05) ? 60 : r.range(0, 59));
     return t;
 }
 
@@ -133,7 +136,7 @@ inline model::MLib gdsify(const model::MLib& in) {
                 q.layer = p.layer & 0x7fff;
                 q.dtype = p.dtype & 0x7fff;
                 std::vector<canon::IPt> ip;
-                for (auto& v : p.spine) ip.push_back(canon::rgrid(Pt{v.x + off.x, v.y + off.y}));
+                for (auto& v : model::centre_line(p)) ip.push_back(canon::rgrid(Pt{v.x + off.x, v.y + off.y}));
                 canon::dedup(ip, false);
                 if (ip.size() < 2) continue;
                 for (auto& v : ip) q.spine.push_back(Pt{v.x * 10, v.y * 10});
@@ -238,10 +241,11 @@ inline model::MLib oasify(const model::MLib& in) {
         for (auto& p : c.paths) {
             if (!p.simple) continue;
             std::vector<canon::IPt> ip;
-            for (auto& q : p.spine) ip.push_back(canon::rgrid(q));
+            for (auto& q : model::centre_line(p)) ip.push_back(canon::rgrid(q));
             canon::dedup(ip, false);
             if (ip.size() < 2) continue;
             p.spine.clear();
+            p.voffs.clear();
             for (auto& v : ip) p.spine.push_back(Pt{v.x * 10, v.y * 10});
             p.hw = g10(p.hw);
             p.eu = g10(p.eu);
